@@ -41,6 +41,9 @@ type scriptConn struct {
 	chunks [][]byte
 	idx    int
 	reads  int // reads that delivered data or EOF (transient errors not counted)
+	// touched: chunks the reader has started on (the end of the stream counts as one more); a
+	// chunk larger than the reader's buffer takes several reads
+	touched int
 	wrote  bytes.Buffer
 	// failBefore[i]: the read that would deliver chunk i first fails once with a timeout, the
 	// way a read deadline expiring in the middle of a frame does; no byte is consumed by it
@@ -65,6 +68,7 @@ func (c *scriptConn) Read(b []byte) (int, error) {
 		return 0, scriptTimeout{}
 	}
 	c.reads++
+	c.touched = max(c.touched, c.idx+1)
 	if c.idx >= len(c.chunks) {
 		return 0, io.EOF
 	}
@@ -155,6 +159,25 @@ func checkSegmentation(rec *sim.Rec, stream []byte, cuts []int, segName string, 
 
 			return
 		}
+		if k < len(frames) && len(frames[k]) > len(buf) {
+			// the frame does not fit the caller's buffer: an error ends the stream, otherwise the
+			// frame is gone (what was copied is its beginning) and the next frame follows intact
+			want := frames[k]
+			if err != nil {
+				rec.Ev("oversized-frame-ends-stream")
+
+				return
+			}
+			if m := min(n, len(buf)); !bytes.Equal(buf[:m], want[:m]) {
+				rec.Violate("framer-mismatch", "oversized-frame/"+frameKind(want), "frame %d (%d bytes) read into %d bytes: got %x..., want its beginning %x... (%s cuts %v)", k, len(want), len(buf), head(buf[:m]), head(want), segName, cuts)
+
+				return
+			}
+			consumed += len(want)
+			rec.Ev("oversized-frames-skipped")
+
+			continue
+		}
 		if k < len(frames) {
 			want := frames[k]
 			if err != nil {
@@ -177,8 +200,8 @@ func checkSegmentation(rec *sim.Rec, stream []byte, cuts []int, segName string, 
 					break
 				}
 			}
-			if sc.reads > needChunks {
-				rec.Violate("framer-late", fmt.Sprintf("%s/len%d", frameKind(want), min(len(want), 12)), "frame %d (%d bytes) was complete after %d reads but returned only after %d reads (%s cuts %v)", k, len(want), needChunks, sc.reads, segName, cuts)
+			if sc.touched > needChunks {
+				rec.Violate("framer-late", fmt.Sprintf("%s/len%d", frameKind(want), min(len(want), 12)), "frame %d (%d bytes) was complete with segment %d but returned only after segment %d was read (%d reads, %s cuts %v)", k, len(want), needChunks, sc.touched, sc.reads, segName, cuts)
 
 				return
 			}
@@ -302,6 +325,13 @@ func runC10Stream(t *testing.T, rng *rand.Rand, rec *sim.Rec, tier string, caseN
 		tail = "stun-no-cookie"
 	}
 	bufSize := 70000
+	if caseNo%5 == 2 {
+		// the caller reads into a buffer that some frames do not fit in (the client reads with 1600
+		// bytes, the server with its inbound MTU): such a frame cannot be delivered whole, but it
+		// must not damage the frames behind it
+		bufSize = pick(rng, []int{1600, 1500, 576, 128, 24})
+		rec.FP("stream/caller-buffer=%d", bufSize)
+	}
 	checkSegmentation(rec, stream, nil, "whole", bufSize)
 	if len(stream) <= 6000 {
 		cuts := make([]int, 0, len(stream))
